@@ -479,6 +479,17 @@ private:
             sink_.push_back(jsoncons::ubjson::ubjson_type::int64_type);
             binary::native_to_big(static_cast<int64_t>(val),std::back_inserter(sink_));
         }
+        else
+        {
+            // UBJSON has no unsigned 64 bit type, values above the int64 range are written as high-precision numbers
+            std::string s = std::to_string(val);
+            sink_.push_back(jsoncons::ubjson::ubjson_type::high_precision_number_type);
+            put_length(s.length());
+            for (auto c : s)
+            {
+                sink_.push_back(c);
+            }
+        }
         end_value();
         JSONCONS_VISITOR_RETURN;
     }
